@@ -102,6 +102,8 @@ Inductive bufst :=
        next_fetch_offset now, next_fetch_offset when exhausted *)
 | Err (code : Z).        (* FetchError *)
 
+Definition has_buf (b : bufst) : bool := match b with NoBuf => false | _ => true end.
+
 Record st := mkSt {
   pos : option Z;            (* TopicPartitionState._position (None: no valid position) *)
   buf : bufst;
@@ -224,6 +226,7 @@ Definition step (none : bool) (L : list batch) (s : st) (e : ev) : option st :=
       | Some fl =>
           let s0 := mkSt (pos s) (buf s) (paused s) fl (start s) (seg s) (hist s) in
           if negb (opt_eqb (pos s) o) then Some s0          (* the stale-reply rule *)
+          else if has_buf (buf s) then Some s0              (* a second reply for an offset whose data is buffered *)
           else if code =? 0 then
             match bs with
             | [] => Some s0
@@ -430,7 +433,7 @@ Definition abs_ev (none : bool) (s : st) (e : ev) : list sev :=
       | _ => []
       end
   | FetchResp o code _ =>
-      if opt_eqb (pos s) o && negb (code =? 0) && (code =? OFFSET_OUT_OF_RANGE) && negb none
+      if opt_eqb (pos s) o && negb (has_buf (buf s)) && negb (code =? 0) && (code =? OFFSET_OUT_OF_RANGE) && negb none
       then [SLose] else []
   | Seek o => [SSeek o]
   | SeekReset => [SLose]
